@@ -1068,9 +1068,12 @@ static inline int myth_felock_unlock_body(myth_felock_t * fe) {
 
 static inline int myth_felock_wait_and_lock_body(myth_felock_t * fe, 
 						 int status_to_wait) {
+  MYTH_VERIF_POINT(MYTH_VP_FE_WAL_BEGIN, fe, 0, status_to_wait);
   myth_mutex_lock_body(fe->mutex);
+  MYTH_VERIF_POINT(MYTH_VP_FE_WAL_CHECK, fe, 0, fe->status);
   while (fe->status != status_to_wait) {
     myth_cond_wait(&fe->cond[status_to_wait], fe->mutex);
+    MYTH_VERIF_POINT(MYTH_VP_FE_WAL_CHECK, fe, 0, fe->status);
   }
   return 0;
 }
@@ -1078,6 +1081,7 @@ static inline int myth_felock_wait_and_lock_body(myth_felock_t * fe,
 static inline int myth_felock_mark_and_signal_body(myth_felock_t * fe,
 						   int status_to_signal) {
   fe->status = status_to_signal;
+  MYTH_VERIF_POINT(MYTH_VP_FE_MARK, fe, 0, status_to_signal);
   myth_cond_signal(&fe->cond[status_to_signal]);
   return myth_mutex_unlock_body(fe->mutex);
 }
